@@ -368,7 +368,11 @@ func TestC07(t *testing.T) {
 		plantsKey := false // the forgery carries the attacker's key for X's address
 
 		// Choose the alteration.
-		alt := c.Weighted("alter", 4, 10, 4, 3, 3, 4, 4)
+		graftW := 0
+		if kindName == "announce" && len(data) > parts.apxStart {
+			graftW = 6 // the announcement reached the victim over a relay: it carries hop records
+		}
+		alt := c.Weighted("alter", 4, 10, 4, 3, 3, 4, 4, graftW)
 		altName := "genuine"
 		authentic := true // whether the delivered message is still authentic as X's
 		replay := false
@@ -443,6 +447,24 @@ func TestC07(t *testing.T) {
 		case 6:
 			replay = true
 			altName, authentic = "exact-replay", false
+		case 7: // the hop records the victim verified for one announcement, attached to a later announcement of X that the relay never handled
+			if res := ms.vn.Inject(V, link, G.Data); res.Panicked {
+				c.Fatalf("panic on genuine %s: %v", kindName, ms.vn.Panics)
+			}
+			env.deliverAll()
+			time.Sleep(2 * time.Millisecond)
+			later := env.hold(func() { _ = X.Rtr.VerifAnnounce() })
+			for _, fl := range later {
+				if len(fl.Data) > 48 && netip.AddrFrom16([16]byte(fl.Data[16:32])) == X.IP() && frame.MessageType(fl.Data[4]) == mt {
+					p2 := c08PartsOf(fl.Data)
+					if p2.apxStart > len(fl.Data) {
+						continue
+					}
+					data = append(append([]byte(nil), fl.Data[:p2.apxStart]...), genuineData[parts.apxStart:]...)
+					altName, authentic = "hop-records-of-an-earlier-announcement-grafted", false
+					break
+				}
+			}
 		}
 		c.Note("kind=%s alteration=%s authentic=%v keyed=%v", kindName, altName, authentic, xKeyed())
 
